@@ -77,11 +77,11 @@ class DictTr:
                 return self._isinstance(v, tv, e.args[1]), 'bool'
             if f == 'cast' and len(e.args) == 2:
                 return self.pexpr(e.args[1], env)
-            if f in ('copy.copy', 'copy.deepcopy') and len(e.args) == 1 and not e.keywords:
+            if f == 'copy.deepcopy' and len(e.args) == 1 and not e.keywords:     # (the shallow copy.copy of F-CFG-ALIAS is rejected)
                 v, tv = self.pexpr(e.args[0], env)
                 self._want(tv, 'cv')
                 self.copies.append(f)
-                return '(%s %s)' % ('cv_copy' if f == 'copy.copy' else 'cv_deepcopy', v), 'cv'
+                return '(cv_deepcopy %s)' % v, 'cv'
             if self.rec_name is not None and f == self.fname and len(e.args) == 2 and not e.keywords:
                 a, ta = self.pexpr(e.args[0], env)
                 b, tb = self.pexpr(e.args[1], env)
@@ -97,6 +97,13 @@ class DictTr:
                 self._want(tdv, 'cv')
                 return '(cv_get_or %s %s %s)' % (d, k, dv), 'cv'
             raise Unsupported('call %s' % f)
+        if isinstance(e, ast.IfExp):
+            c, tc = self.pexpr(e.test, env)
+            a, ta = self.pexpr(e.body, env)
+            b, tb = self.pexpr(e.orelse, env)
+            self._want(tc, 'bool')
+            self._want(tb, ta)
+            return '(if %s then %s else %s)' % (c, a, b), ta
         if isinstance(e, ast.UnaryOp) and isinstance(e.op, ast.Not):
             v, tv = self.pexpr(e.operand, env)
             self._want(tv, 'bool')
@@ -300,14 +307,20 @@ def translate_deep_update(tree: ast.Module) -> str:
     def fall(_env):
         raise Unsupported('control reaches the end of deep_update')
     body = tr.block(list(fn.body), env, fall, lambda v, e: v)
-    if len(tr.copies) != 1:
-        raise Unsupported('deep_update is expected to copy the source exactly once (found %s)' % tr.copies)
+    else_branch = [ast.unparse(st) for st in ast.walk(fn) if isinstance(st, ast.Assign) and 'copy.deepcopy' in ast.unparse(st)]
+    plain = ['target = copy.deepcopy(source)']
+    rebuilt = ['target = deep_update({}, copy.deepcopy(source)) if isinstance(source, collections.abc.Mapping) else copy.deepcopy(source)']
+    if else_branch not in (plain, rebuilt):
+        raise Unsupported('deep_update copies the source in an unknown way: %s' % else_branch)
     return ('(* deep_update with its recursive call abstracted as `rec` (open recursion) *)\n'
             'Definition deep_update_step (rec : cv -> cv -> cv) (target source : cv) : cv :=\n  %s.\n\n'
             '(* how a source mapping that replaces a non-mapping target value is copied: copy.deepcopy (true) or the shallow\n'
             '   copy.copy (false).  Value-wise both are the identity; the object-identity models of ConfigAlias.v take this flag. *)\n'
-            'Definition deep_update_copies_deeply : bool := %s.'
-            % (body, 'true' if tr.copies == ['copy.deepcopy'] else 'false'))
+            'Definition deep_update_copies_deeply : bool := %s.\n\n'
+            '(* is the deep copy rebuilt key by key (`deep_update({}, copy.deepcopy(source))`), so that sub-maps that are ONE object inside the\n'
+            '   source (YAML anchors, one dict under two keys) become distinct objects in the target?  false = pending fix of F-CFG-ALIASMAP *)\n'
+            'Definition deep_update_rebuilds_copy : bool := %s.'
+            % (body, 'true', 'true' if else_branch == rebuilt else 'false'))
 
 
 # ---------------------------------------------------------------------------------------------
@@ -471,7 +484,11 @@ def translate_cli(wk: typing.Dict[str, str]) -> str:
             sources.append((k, a))
             opts.append('let lo := match arg %s with Some a => dset %s (Leaf false a) lo | None => lo end in' % (coq_str(a), coq_str(k)))
             continue
-        if isinstance(s, ast.If) and 'additional_config_files' in u and 'self._args.configuration' in u:
+        if isinstance(s, ast.If) and 'additional_config_files' in u:
+            if u != ('if self._args.configuration is None:\n    additional_config_files = []\n'
+                     'elif isinstance(self._args.configuration, pathlib.Path):\n    additional_config_files = [self._args.configuration]\n'
+                     'else:\n    additional_config_files = self._args.configuration'):
+                raise Unsupported('the configuration files are no longer passed on in command-line order')
             cfg_seen = True
             continue
         if u == 'target_language_name = self._args.target_language':
@@ -655,11 +672,10 @@ def translate_cpp_validate() -> str:
 # T2 (shape-pinned): LanguageContextBuilder.create -- does a new context share the builder's LanguageConfig?
 # ---------------------------------------------------------------------------------------------
 
-CREATE_SHARED = [
-    'target_language_name = self._resolve_target_language(self._target_language_name)',
-    'self.config.update_section(LanguageClassLoader.to_language_module_name(target_language_name), self._target_language_config)',
-    'target_language = self._new_language_w_experimental_handling(target_language_name)',
-    'return LanguageContext(self._ln_loader.config, target_language, functools.partial(self._new_language_map, target_language))',
+STRIP_MARKERS = [
+    'from nunavut._utilities import DefaultValue',
+    'for key, value in mapping.items():\n    if isinstance(value, DefaultValue):\n        mapping[key] = value = value.value\n'
+    '    if isinstance(value, dict):\n        _strip_default_markers(value)',
 ]
 CREATE_DETACHED = [
     'target_language_name = self._resolve_target_language(self._target_language_name)',
@@ -696,18 +712,28 @@ def translate_create() -> str:
         if _stmts(find_function(tree, 'LanguageContextBuilder', name)) != want:
             raise Unsupported('LanguageContextBuilder.%s has an unknown shape' % name)
     got = _stmts(find_function(tree, 'LanguageContextBuilder', 'create'))
-    if got == CREATE_SHARED:
-        detaches = False
-    elif got == CREATE_DETACHED:
-        helper = [n for n in tree.body if isinstance(n, ast.FunctionDef) and n.name == '_detached_builder']
-        if len(helper) != 1 or _stmts(helper[0]) != DETACHED_BUILDER or _params(helper[0], False) != ['builder']:
-            raise Unsupported('_detached_builder has an unknown shape')
-        detaches = True
-    else:
+    if got != CREATE_DETACHED:       # (the shape that shared the builder's LanguageConfig, F-CFG-REUSE, is rejected)
         raise Unsupported('LanguageContextBuilder.create has an unknown shape: %s' % ' | '.join(x.splitlines()[0] for x in got))
+    helper = [n for n in tree.body if isinstance(n, ast.FunctionDef) and n.name == '_detached_builder']
+    if len(helper) != 1 or _params(helper[0], False) != ['builder']:
+        raise Unsupported('_detached_builder not found')
+    detaches = True
+    hs = _stmts(helper[0])
+    if hs == DETACHED_BUILDER:
+        strips = False
+    elif hs == DETACHED_BUILDER[:-1] + ['_strip_default_markers(detached._ln_loader._config.sections())', 'return detached']:
+        sm = [n for n in tree.body if isinstance(n, ast.FunctionDef) and n.name == '_strip_default_markers']
+        if len(sm) != 1 or _stmts(sm[0]) != STRIP_MARKERS or _params(sm[0], False) != ['mapping']:
+            raise Unsupported('_strip_default_markers has an unknown shape')
+        strips = True
+    else:
+        raise Unsupported('_detached_builder has an unknown shape')
     return ('(* LanguageContextBuilder.create: true = the new context gets deep copies of the configuration and the overrides\n'
             '   (create leaves the builder unchanged); false = the context shares the builder\'s LanguageConfig, which create updates in place *)\n'
-            'Definition create_detaches_config : bool := %s.' % ('true' if detaches else 'false'))
+            'Definition create_detaches_config : bool := %s.\n\n'
+            '(* does create() replace the DefaultValue markers of the copy by the plain values, at every depth, before the languages are\n'
+            '   constructed (`_strip_default_markers`)?  false = pending fix of F-CFG-WRAPPER *)\n'
+            'Definition create_strips_default_markers : bool := %s.' % ('true' if detaches else 'false', 'true' if strips else 'false'))
 
 
 
@@ -777,15 +803,40 @@ def current_shapes() -> dict:
     return out
 
 
-def check_pins() -> None:
+# functions with a second accepted body: the shape after a proposed fix (design_notes/C13_*_fix.patch)
+PIN_ALTERNATIVES = {
+    'src/nunavut/lang/_config.py::LanguageConfig.update_from_yaml_string':
+        ['configuration = yaml_loader(string, Loader=YamlLoader)', 'self.update(configuration if configuration is not None else {})'],
+    'src/nunavut/lang/_config.py::LanguageConfig.update_from_yaml_file':
+        ['configuration = yaml_loader(f, Loader=YamlLoader)', 'self.update(configuration if configuration is not None else {})'],
+}
+
+
+def check_pins() -> str:
     import json
     with open(PIN_FILE, encoding='utf-8') as f:
         want = json.load(f)
     got = current_shapes()
+    alt_hit = []
     for k in want:
         if got.get(k) != want[k]:
+            if k in PIN_ALTERNATIVES and dict(want[k], body=PIN_ALTERNATIVES[k]) == got.get(k):
+                alt_hit.append(k)
+                continue
             part = next((p for p in ('decorators', 'params', 'defaults', 'body') if got.get(k, {}).get(p) != want[k].get(p)), '?')
             raise Unsupported('%s no longer has the shape the model of Gen/Config.v stands for (%s differ)' % (k, part))
+    if alt_hit and sorted(alt_hit) != sorted(PIN_ALTERNATIVES):
+        raise Unsupported('update_from_yaml_string and update_from_yaml_file treat an empty document differently')
+    conf = [r for r in parser_table() if r['dest'] == 'configuration']
+    if len(conf) != 1 or conf[0]['nargs'] != '*' or conf[0]['action'] not in (None, 'extend') or conf[0]['default'] is not None:
+        raise Unsupported('--configuration is no longer nargs="*" with action store/extend and default None')
+    return ('(* an empty / comment-only yaml document (yaml gives None): true = it is the identity of the merge, false = update(None) raises\n'
+            '   (pending fix of F-CFG-EMPTYDOC) *)\n'
+            'Definition yaml_empty_document_is_identity : bool := %s.\n\n'
+            '(* a repeated --configuration option: true = the file lists accumulate in command-line order (action="extend"),\n'
+            '   false = only the last occurrence survives (pending fix of F-CFG-REPEATC) *)\n'
+            'Definition cli_configuration_accumulates : bool := %s.'
+            % ('true' if alt_hit else 'false', 'true' if conf[0]['action'] == 'extend' else 'false'))
 
 
 def scan_mutable_defaults() -> None:
@@ -1049,7 +1100,7 @@ def gen_c13() -> typing.Tuple[bool, str]:
         parts.append(translate_cpp_validate())
         parts.append(translate_getters())
         parts.append(translate_create())
-        check_pins()
+        parts.append(check_pins())
         scan_mutable_defaults()
         parts.append(translate_cli(wk))
     except (Unsupported, SyntaxError, OSError, KeyError, TypeError, ValueError) as ex:
